@@ -405,7 +405,7 @@ fn run_case(w: &mut Worker, i: u64) -> CaseOut {
 pub fn run(cfg: &Cfg) -> i32 {
     let start = Instant::now();
     let _ = crate::keys::pool();
-    let n = cfg.tier.pick(12_000u64, 150_000);
+    let n = cfg.tier.pick(12_000u64, 450_000);
     let budget = cfg.tier.pick(Duration::from_secs(300), Duration::from_secs(1500));
     let ev = par_run(cfg, n, budget, |w, i| Some(run_case(w, i)));
     let required = vec![
